@@ -139,6 +139,18 @@ class ColangParser:
                         result["import_paths"].append(
                             os.path.join(*import_el.package.split("."))
                         )
+                elif element["_type"] == "doc_string_stmt" or (
+                    element["_type"] == "stmt" and not element["elements"]
+                ):
+                    # Comments and empty lines
+                    continue
+                else:
+                    # Anything else would be dropped silently, together with the flows
+                    # that are defined inside it (e.g. under a module level `if`).
+                    line = (element["_source"] or {}).get("line", "?")
+                    raise ColangSyntaxError(
+                        f"Only flow definitions and imports are allowed outside of a flow (line {line})"
+                    )
 
         return result
 
